@@ -2,6 +2,7 @@
     Property theorems only; each is closed by [exact] of a lemma proved in Proofs/. *)
 Require Import Sedpack.Model.Base Sedpack.Generated.GenFiller Sedpack.Model.Filler.
 Require Import Sedpack.Proofs.FillerProofs Sedpack.Proofs.FillerExact.
+Require Import Sedpack.Generated.GenMerge Sedpack.Model.Meta Sedpack.Proofs.OrderProofs.
 Require Import Sedpack.Generated.GenIter Sedpack.Model.Iter Sedpack.Model.PipeBase Sedpack.Generated.GenPipeline Sedpack.Proofs.PipelineProofs.
 
 (** Within one filler context the shards recorded for a split, concatenated in the order in
@@ -24,6 +25,21 @@ Theorem c03_unshuffled_interfaces_in_order :
   /\ (forall T, ana path ex read process pickA permA pickB 0 T hp paths = spec path ex read process hp paths).
 Proof. exact unshuffled_in_order. Qed.
 Print Assumptions c03_unshuffled_interfaces_in_order.
+
+(** Over whole histories (session model of C04): whatever sessions came before and whatever sessions follow, the shards a filler
+    session closed for a split are found in the depth-first shard list of that split — the order in which unshuffled iteration
+    visits shards — contiguously, in close order, each holding exactly the examples written into it (with
+    [c03_session_order_preserved]: their concatenation is the session's accepted writes to that split in caller order). *)
+Theorem c03_session_block_in_order :
+  forall eps : nat, 1 <= eps ->
+  forall (h1 : list session) (sub : list nat) (ops : list wop) (h2 : list session) (st1 st2 st3 : fsT * dinfo),
+  run_history eps h1 = Ok st1 -> run_session eps st1 (SFiller sub ops) = Ok st2 ->
+  run_history eps (h1 ++ SFiller sub ops :: h2) = Ok st3 ->
+  forall s : split, exists pre post : list (list nat),
+    map (examples_of (fst st3)) (dfs FUEL (fst st3) [split_code s]) =
+    pre ++ map (stored (base (fst st1))) (closed_of s (session_closed eps ops)) ++ post.
+Proof. exact session_block_in_order. Qed.
+Print Assumptions c03_session_block_in_order.
 
 (** Non-vacuity: three splits interleaved, shard size 2. *)
 Theorem c03_nonvacuous :
